@@ -27,18 +27,29 @@ def regen(ctx):
         ctx.log("regenerated " + os.path.relpath(L.GEN_PATH, L.VERIF))
 
 
-def corpus_cases():
+def norm_case(c):
+    c = dict(c)
+    if "outs" in c:
+        c["outs"] = [tuple(o) for o in c["outs"]]
+    if "out" in c:
+        c["out"] = tuple(c["out"])
+    return c
+
+
+def corpus_entries():
     out = []
     if os.path.isdir(CORPUS):
         for fn in sorted(os.listdir(CORPUS)):
             if fn.endswith(".json"):
                 j = json.load(open(os.path.join(CORPUS, fn)))
-                for c in (j["cases"] if "cases" in j else [j["case"]]):
-                    c = dict(c)
-                    c["outs"] = [tuple(o) for o in c["outs"]] if "outs" in c else None
-                    c["_corpus"] = fn
-                    out.append(c)
+                j["case"] = norm_case(j["case"])
+                j["file"] = fn
+                out.append(j)
     return out
+
+
+def corpus_cases():
+    return [j["case"] for j in corpus_entries()]
 
 
 def gen_cases(ctx, scale=1.0, only=None):
@@ -134,15 +145,60 @@ def correspond(ctx):
 
 
 def probes(ctx):
-    return []
+    """Replay the witness of every LISTED finding (fixed ones must be accepted and valid; open ones are reported while
+    the real code still shows the defect).  Ids not present in known_findings.json are not probed."""
+    listed = {e.get("id") for e in ctx.known}
+    out = []
+    ents = [j for j in corpus_entries() if j.get("finding") in listed]
+    recs = L.run_cases([j["case"] for j in ents], procs=1) if ents else []
+    for j, r in zip(ents, recs):
+        fid = j["finding"]
+        if j["expect"] == "accepted":
+            fails = r["status"] != "ok" or bool(r["viol"]) or bool(r.get("error"))
+            what = "status=%s %s" % (r["status"], "; ".join(r["viol"])[:200])
+        else:
+            fails = r.get("region") == fid
+            what = "status=%s region=%s" % (r["status"], r.get("region"))
+        out.append((fid, fails, "%s: %s" % (j["file"], what)))
+    return out
 
 
 def search(ctx, disagreements, proof_info):
+    """Failing-input search with the exact oracle only (independent of the Lean model)."""
     for d in disagreements:
         if d.get("kind") == "monitor":
             return {"case": d["case"], "oracle": d["what"], "real": d.get("real")}
+    fams = {d["case"]["fam"] for d in disagreements if isinstance(d.get("case"), dict)} or None
+    t0 = time.time()
+    budget = 90 if ctx.tier == "quick" else 600
+    rounds = 0
+    seeds = [d["case"] for d in disagreements if isinstance(d.get("case"), dict)]
+    while time.time() - t0 < budget and rounds < 6:
+        rounds += 1
+        cases = seeds + gen_cases(ctx, scale=0.5, only=fams) + (gen_cases(ctx, scale=0.25) if fams else [])
+        seeds = []
+        for r in L.run_cases(cases, use_lean=False):
+            if r["viol"] and not r["region"]:
+                return {"case": r["case"], "oracle": r["viol"][0], "real": r.get("real")}
     return None
 
 
 def replay(ctx, payload):
-    return 1
+    fi = payload.get("failing_input")
+    if not fi:
+        print("replay file carries no failing input (no-failing-input-found); disagreements were:")
+        for d in payload.get("disagreements", [])[:3]:
+            print("  ", json.dumps(d, default=str)[:400])
+        return 1
+    L.fast_tracer()
+    c = norm_case(fi["case"])
+    fam = L.fams()[c["fam"]]
+    real = fam.real(c)
+    orc = fam.oracle(c, real)
+    print("case   :", json.dumps(c))
+    print("real   :", json.dumps(L.jsonable(real))[:600])
+    print("oracle :", orc[0] or "no violation")
+    if orc[0]:
+        print("VIOLATION property=C20 replay reproduces: " + orc[0][0])
+        return 1
+    return 0
